@@ -146,10 +146,15 @@ def run(ctx):
     # ---------------- K3 test-and-set under one guard --------------------------------------------------
     accessors = {}
     for b in bodies:
-        locks = [(blk, c, t) for (blk, c, t) in b.calls() if c.method in ("lock", "try_lock") and "Mutex" in c.self_s]
-        if not locks or b.root != b.defp:
+        if b.root != b.defp:
             continue
-        ops = {c.method for (_, c, _) in b.calls() if "LruCache" in c.self_s or "lru_time_cache" in c.target}
+        fcalls = prog.flat(b.defp).calls()      # the lock may be taken in a private helper of the cache type
+        locks = [(blk, c, t) for (blk, c, t) in fcalls if c.method in ("lock", "try_lock") and "Mutex" in c.self_s]
+        if not locks:
+            continue
+        ops = {c.method for (_, c, _) in fcalls if "LruCache" in c.self_s or "lru_time_cache" in c.target}
+        if "with_expiry_duration_and_capacity" in ops or "with_expiry_duration" in ops or "new" in ops and len(ops) == 1:
+            continue
         kind = set()
         if ops & {"get", "contains_key", "peek", "get_mut"}:
             kind.add("lookup")
@@ -157,17 +162,43 @@ def run(ctx):
             kind.add("insert")
             # an insert whose "was it new?" answer is the function's result is a test-and-set
             if b.local_ty(0) == "bool":
-                locs, calls, _ = b.slice_back([0])
+                fb_ = prog.flat(b.defp)
+                locs, calls, _ = fb_.slice_back([0])
                 if any(cc.method == "insert" for (_, cc, _) in calls):
                     kind.add("test-and-set")
-        if kind:
+        if kind and b.argc >= 2 and b.local_ty(0) in ("bool", "()"):
             accessors[b.defp] = kind
+    # an accessor that only wraps another accessor is the same operation
     ctx.floor("K3", "salt-cache accessor functions", 1, len(accessors))
-    users = []
+    # users: the decode step that uses the cache. A decoder split into helper stages is judged as a whole: climb from the function that
+    # calls an accessor to the outermost method of the same type that (transitively) contains it
+    callers = {}
     for b in bodies:
-        cs = [(blk, c, t) for (blk, c, t) in b.calls() if c.target in accessors]
-        if cs and b.defp not in accessors:
-            users.append((b, cs))
+        for (blk, c, t) in b.calls():
+            cb = prog.body(c.target)
+            if cb is not None and cb.root != b.root:
+                callers.setdefault(cb.root, set()).add(b.root)
+    direct = {b.root for b in bodies if b.defp not in accessors and any(c.target in accessors for (_, c, _) in b.calls())}
+    tops = set()
+    for r in direct:
+        cur = r
+        for _ in range(4):
+            ty = prog.body(cur).impl_self_def
+            ups = [u for u in callers.get(cur, ()) if prog.body(u) is not None and prog.body(u).impl_self_def == ty and ty is not None and u not in accessors and not prog.body(u).impl_trait]
+            if len(ups) != 1:
+                break
+            cur = ups[0]
+        tops.add(cur)
+    users = []
+    for r in sorted(tops | direct):
+        if r in direct and r not in tops and any(u[0].root != r and r in {prog.body(o).root for o in u[0].origin} for u in users):
+            continue
+        fb_ = prog.flat(r)
+        cs = [(blk, c, t) for (blk, c, t) in fb_.calls() if c.target in accessors and prog.body(fb_.origin[blk]).root not in accessors]
+        if cs:
+            users.append((fb_, cs))
+    # a stage that is spliced into another user's flat view is judged there
+    users = [u for u in users if not any(w is not u and u[0].root in {prog.body(o).root for o in w[0].origin} and w[0].root != u[0].root for w in users)]
     ctx.floor("K3", "accept paths using the salt cache", 1, len(users))
     for (b, cs) in users:
         combined = [x for x in cs if accessors[x[1].target] >= {"lookup", "insert"}]
@@ -175,8 +206,8 @@ def run(ctx):
             if "test-and-set" in accessors[x[1].target]:
                 # the caller must refuse when the salt was already there
                 gs = [g for g in gates_of_value(b, x[2]["dest"][0]) if g.kind == "bool"]
-                from .common import err_return_reachable_only
-                if gs and any(err_return_reachable_only(b, g.bool_target(False)) for g in gs):
+                from .common import err_only
+                if gs and any(err_only(prog, b, g.bool_target(False)) for g in gs):
                     combined.append(x)
         inserts_plain = [x for x in cs if accessors[x[1].target] == {"insert"}]
         lookups = [x for x in cs if accessors[x[1].target] == {"lookup"}]
